@@ -59,6 +59,18 @@ PROPS = {
                      'A-dispatch: an executed closure is one of the registered instruction functions (each verified panic-free under the envelope, configuration outside its footprint)',
                      'ENVELOPE premise: two assume(envelope(state)) in run\'s loop -- C01\'s stated resource envelope holds along the run'],
     ),
+    'C03': dict(
+        level='proof',
+        units=['path:parser::PushParser::parse_program', 'path:parser::PushParser::parse_vector', 'path:parser::PushParser::rec_push', 'path:stack::PushStack::push_front', 'path:stack::PushStack::bottom_mut', 'path:stack::PushStack::push'],
+        explanation='for EVERY input string: parse_program / parse_vector / rec_push never panic (the depth counter cannot underflow or overflow, the three `token[k..]` slices are taken only after '
+                    '`starts_with` of an ASCII prefix of k bytes, rec_push recurses on a strictly smaller depth), terminate, and change nothing but the EXEC stack (only_exec_changed). '
+                    'The str operations are read through the R15 wrappers (bodies = the original expressions): what split_whitespace / split / strip_suffix / parse return is uninterpreted',
+        not_decided=['tree shape (same nesting, same order, first token on top), the classification cascade and "a malformed vector literal is dropped without disturbing its neighbours": they depend on what '
+                     'split_whitespace / split / parse / strip_suffix return, which no installed verifier can reason about (Verus: no str content reasoning; Kani on parse_program with 3 symbolic bytes did not finish in 10 minutes)',
+                     'InstructionSet::is_instruction is an opaque lookup (HashMap of boxed closures)'],
+        assumptions=['R15: `s.starts_with(p)` with an ASCII literal p implies that byte offset |p| lies inside s on a character boundary (so `&s[|p|..]` cannot panic); a string in memory has fewer than 2^64 whitespace-separated tokens; '
+                     'SplitWhitespace::next consumes at least one token when it returns one (termination measure sw_remaining); `s.split(p)` is read as its collected pieces'],
+    ),
     'C17': dict(
         level='proof',
         units=['path:buffer::PushBuffer::*', 'path:buffer::PushBufferIterator::*', 'nameglob:INPUT.*', 'nameglob:OUTPUT.*'],
